@@ -33,10 +33,21 @@ def _bits_of_bytes(ctx, bytes_):
     return out
 
 
+def _doc_geometry(est, fpr):
+    """(bits, hashes) an independent reader of the documented layout derives from the footer's (est, rate): the documented
+    formulas at this concrete configuration with the real math module (the formula over ALL rates is C07's subject)"""
+    import math
+    import struct
+    p32 = struct.unpack("f", struct.pack("f", fpr))[0]
+    m = math.ceil(-est * math.log(p32) / 0.4804530139182)
+    return m, int(round(0.6931471805599453 * m / est))
+
+
 def bloom(ctx, cfg):
     env.setup(ctx, "bloom")
     bf = sym_bloom(ctx, cfg["est"], cfg["fpr"], hash_function=FIXED)
     m, k, L = bf.number_bits, bf.number_hashes, bf.bloom_length
+    ctx.check((m, k) == _doc_geometry(cfg["est"], cfg["fpr"]), "geometry-is-what-a-reader-derives")
     B0 = env.export_bytes(ctx, bf)
     n0 = bf.elements_added
     h, g = hv(ctx, "h", k, m), hv(ctx, "g", k, m)
@@ -60,6 +71,7 @@ def cbf(ctx, cfg):
     from probables import CountingBloomFilter
     f = CountingBloomFilter(cfg["est"], cfg["fpr"], hash_function=FIXED)
     m, k = f.number_bits, f.number_hashes
+    ctx.check((m, k) == _doc_geometry(cfg["est"], cfg["fpr"]), "geometry-is-what-a-reader-derives")
     for j in range(m):
         f._bloom[j] = ctx.int(f"cell{j}", 0, 2 ** 31)
     f.elements_added = ctx.int("added", 0, 2 ** 40)
